@@ -793,7 +793,10 @@ func isRouteNamespaceAllowedByListener(
 
 			ns, exists := namespaces[types.NamespacedName{Name: routeNS}]
 			if !exists {
-				panic(fmt.Errorf("route namespace %q not found in map", routeNS))
+				// The Namespace of the route is not known (yet): its event may arrive after the route's, or the
+				// Namespace was deleted while the route still exists. The route is not allowed until the Namespace
+				// is known; a later Namespace event that matches the selector triggers a rebuild.
+				return false
 			}
 			return listener.AllowedRouteLabelSelector.Matches(labels.Set(ns.Labels))
 		}
